@@ -313,7 +313,8 @@ static void iauth_xquery_x_reply(const char service[], const char routing[],
                    || (srv->type == LOGIN_IPR)
                    || (srv->type == COMBINED)) {
             int had_account = (req->account[0] != '\0');
-            iauth_xquery_set_account(req, reply + 3);
+            if (!had_account)
+                iauth_xquery_set_account(req, reply + 3);
             if (BITSET_GET(cli->modes, IAUTH_XQUERY_HIDDEN_ONLY)
                 && !had_account && (req->account[0] != '\0')) {
                 req->holds--;
